@@ -208,6 +208,7 @@ pub fn main(variant: u8, pattern: &[u8], seed: u64, single: Option<u64>) -> (i32
     }
 }
 
+#[cfg(not(feature = "nostd"))]
 /// C12 thorough: hash_stream_for::<K> on a generated periodic stream of `total` bytes (no memory), delivered in
 /// seeded read sizes with occasional EINTR; the result must equal the reference model at that offset
 /// (a hash for total <= 4,224,281,216, TooLargeInput above).
